@@ -192,16 +192,22 @@ def plan(doc, has_req, resp_mode):
 class Check(PropertyCheck):
     prop = "C47"
     design_ref = "§5 C47"
-    level_text = ("Lean theorem put_all_or_nothing about the model of FlowHandler.put as a transaction over a flow value "
-                  "(current state as the history of applied setter effects, optional backup): for ALL flows, documents and "
-                  "setter outcomes the PUT either commits every update of the document (and is accepted iff no part is "
-                  "unknown/failing) or returns the flow, its backup included, exactly as it was; plus counterexample theorems "
-                  "for the pre-fix handler. Model tied to the real tornado handler by differential sessions of 1-3 PUTs.")
-    level_note = ("the model abstracts a flow state as (initial snapshot, list of applied primitive setter effects): two equal "
-                  "histories give equal states because the setters are deterministic; outcomes of the primitive setters "
-                  "(str(), int(), Headers.add, text encoding, idna) are answers supplied per case by a reference replay in the "
-                  "harness, not modelled; Flow.get_state/set_state are assumed to snapshot/restore faithfully (checked on every "
-                  "generated case by the before/after comparison, not proved). DNS flows are not exercised.")
+    level_text = ("Lean theorems about the model of FlowHandler.put: put_all_or_nothing (for ALL flows, documents and setter outcomes "
+                  "the PUT either commits every update of the document, accepted iff no part is unknown/failing, or returns the flow, "
+                  "backup included, exactly as it was), put_refused_iff_invalid, put_refused_keeps_revert_target; the per-key dispatch "
+                  "of the handler is transcribed (request_keys_dispatch / response_keys_dispatch: which keys reach a setter) together "
+                  "with the field every primitive write targets: ops_ids_eq_effects (the typed writes are exactly the committed "
+                  "effects), putF_status, putF_refused_unchanged (atomicity on the 17 fields), putF_untouched, "
+                  "putF_scalar_last_writer, putF_list_replaced (what an accepted update leaves in each field); counterexample "
+                  "theorems for the pre-fix handler. Tied to the real tornado handler by differential sessions of 1-3 PUTs: status, "
+                  "commit/rollback, backup AND the predicted content of all 17 fields are compared.")
+    level_note = ("whether a primitive setter call succeeds (str(), int(), Headers.add, text encoding, idna) is an observed input per "
+                  "case (reference replay); the VALUE a successful write leaves is symbolic in the model (effect id) and resolved by "
+                  "the harness to the value recorded for that effect, so the model predicts WHICH write determines each field, not "
+                  "the conversion itself; side effects of library setters on other fields (Host / Content-Length / Content-Type "
+                  "lines rewritten by host, port and content setters) are outside the model and masked in the comparison. "
+                  "Flow.get_state/set_state are assumed to snapshot/restore faithfully (checked on every case by the before/after "
+                  "comparison, not proved). DNS flows are not exercised.")
     technique = "Lean 4 proof (transaction model, induction over the step list) + differential sessions against the real tornado handler"
     rule = ("sessions of 1-3 edit documents over http flows with/without response, websocket and tcp flows, optionally with a "
             "prior backup(); documents mix valid values with unknown keys, non-dict sub-documents, malformed ports/status codes, "
